@@ -269,7 +269,7 @@ int main(int argc, char ** argv) {
         m.key_size = sizeof (hkey_t); m.snap_size = sizeof (snap_t); m.nops = nops;
         m.load = st_load; m.save = st_save; m.apply = apply; m.opname = opname;
         m.max_states = 12000000ULL;          /* about 3.5 GB per explorer process; 16 of them run side by side */
-        m.max_depth = (cap >= 4 && H >= 8) ? 9 : 0;      /* the largest spaces: every history of <= 9 operations instead of the fix-point */
+        m.max_depth = (cap >= 4 && H >= 6) ? 9 : 0;      /* the largest spaces: every history of <= 9 operations instead of the fix-point */
         mcx_run(&m);
         states += m.states; transitions += m.transitions; fix &= m.fixpoint; nrun++;
         if (m.depth_reached > maxdepth) maxdepth = m.depth_reached;
